@@ -10,6 +10,7 @@ ls()/info() of every directory list the same children for the lazy and for the e
 usage: index_fs.py [N]  (seed from VERIF_SEED) -> JSON report, last line of stdout
 """
 import logging; logging.disable(logging.CRITICAL)  # noqa: E702
+import _memfs  # noqa: E402
 import hashlib, json, os, random, sys, tempfile  # noqa: E401
 
 SRC = os.environ.get("PYVC_REPO_SRC", "/repo/src")
@@ -130,6 +131,7 @@ def main():
     failures = []
     with tempfile.TemporaryDirectory(dir="/var/tmp") as tmp:
         for i in range(n):
+            _memfs.reset()
             try:
                 failures += run_one(rng, tmp, i)
             except Exception as e:  # noqa: BLE001  (the code under test raised where the statement promises an answer)
